@@ -137,6 +137,11 @@ class Check:
         elif self.inconclusive:
             rc = 2
         self.write_evidence(rc)
+        try:
+            from checks import replay
+            replay.cleanup()
+        except Exception:
+            pass
         for ln in lines:
             print(ln)
         n_ok = sum(1 for o in self.obligations if o.verdict in ('holds', 'witness-ok'))
